@@ -5,7 +5,7 @@
    The PUSH pseudo-instruction of the compiler picks the shortest push form. *)
 From Coq Require Import ZArith List String.
 From Coq.Strings Require Import Byte.
-From TS Require Import Bytes Codec Ops Names Asm BytesLemmas CodecProofs AsmProofs Assembler AssemblerProofs.
+From TS Require Import Bytes Codec Ops Names Asm BytesLemmas CodecProofs AsmProofs Assembler AssemblerProofs Tokenizer TokenizerProofs.
 Import ListNotations.
 Open Scope list_scope.
 Open Scope Z_scope.
@@ -123,6 +123,39 @@ Check C11_rejected_unknown_name.
 Check C11_rejected_unclosed_block.
 Check C11_names_case_insensitive.
 
+(* ---------------- from SOURCE TEXT (model/Tokenizer.v: str.split + the pop loop of parsing.get_symbols; compile_text =
+   get_symbols then assemble_r, the mirror of compile_script; compared with the real functions on every run: CTXT) ----------------
+   rend raw text: the text is the raw tokens separated by arbitrary non-empty runs of whitespace (blank, tab, newline, CR,
+   VT, FF, FS..US), optionally surrounded by whitespace; posts raw syms: the effect of the tokenizer loop on the raw tokens
+   (names in any letter case are normalised, string values spread over several tokens are re-joined). *)
+Theorem C11_text_of_any_spelling_compiles_to_the_encoding :
+  forall fl2 p syms raw text,
+  spells fl2 p syms -> wf_prog p = true ->
+  posts raw syms -> rend raw text -> all_ascii text = true ->
+  compile_text fl2 text = Ok (encode p).
+Proof. exact compile_spells. Qed.
+
+Theorem C11_whitespace_is_irrelevant :
+  forall raw text1 text2,
+  rend raw text1 -> rend raw text2 -> all_ascii text1 = true -> all_ascii text2 = true ->
+  get_symbols text1 = get_symbols text2 /\ forall fl2, compile_text fl2 text1 = compile_text fl2 text2.
+Proof. exact whitespace_irrelevant. Qed.
+
+(* any letter-casing of any name is a raw spelling of it; comments between top-level statements do not change the code *)
+Definition C11_any_casing_of_a_name := @posts_name.
+Definition C11_comment_between_statements := @comment_between.
+Definition C11_text_with_comments_compiles := @compile_tops.
+Definition C11_worked_example := example_text_compiles.
+Check C11_any_casing_of_a_name.
+Check C11_comment_between_statements.
+Check C11_text_with_comments_compiles.
+
+Print Assumptions C11_text_of_any_spelling_compiles_to_the_encoding.
+Print Assumptions C11_whitespace_is_irrelevant.
+Print Assumptions C11_any_casing_of_a_name.
+Print Assumptions C11_comment_between_statements.
+Print Assumptions C11_text_with_comments_compiles.
+Print Assumptions C11_worked_example.
 Print Assumptions C11_every_spelling_assembles_to_the_encoding.
 Print Assumptions C11_listing_assembles.
 Print Assumptions C11_listing_needs_no_nested_def.
